@@ -32,7 +32,7 @@ ASSUMPTIONS = [
     "numeric_croots precision taken as 1e-13 (sympy N() default), not eps",
 ]
 TIMEOUT = {"quick": 70, "thorough": 150}
-DEADLINE = {"quick": 100, "thorough": 1500}
+DEADLINE = {"quick": 100, "thorough": 1000}
 MIN_DECIDING = {"quick": 60, "thorough": 500}
 NCASES = {"quick": 230, "thorough": 2400}
 RUN_BUDGET = {"quick": 12, "thorough": 30}    # seconds per solver run and per comparison phase (alarm inside the worker)
